@@ -62,6 +62,8 @@ impl Synchronizer {
                                     .duration_since(UNIX_EPOCH)
                                     .expect("Failed to measure time")
                                     .as_millis();
+                                #[cfg(hotstuff_verif)]
+                                let now = { let _ = now; network::simnet::now_ms() };
                                 requests.insert(parent.clone(), now);
                                 let address = committee
                                     .address(&author)
@@ -92,6 +94,8 @@ impl Synchronizer {
                                 .duration_since(UNIX_EPOCH)
                                 .expect("Failed to measure time")
                                 .as_millis();
+                            #[cfg(hotstuff_verif)]
+                            let now = { let _ = now; network::simnet::now_ms() };
                             if timestamp + (sync_retry_delay as u128) < now {
                                 debug!("Requesting sync for block {} (retry)", digest);
                                 #[cfg(hotstuff_verif)]
